@@ -108,7 +108,40 @@ void Exec::probe(const char *where) {
     }
 }
 
-void Exec::tb_after_call(Inst *S, const Op &op, int r, double t0) { (void)S; (void)op; (void)r; (void)t0; }
+// C18: counting bound b + r*t over every window of accepted token-consuming calls, on the harness clock
+// (window measured from before the first call to after the last one: it can only over-estimate the true one)
+void Exec::tb_after_call(Inst *S, const Op &op, int r, double t0) {
+    double t1 = now();
+    if (r == -EAGAIN) {
+        cls.insert("tb-refused"); S->tb_refused++;
+        // recovery: a module that stayed RUNNING in a looping context and whose refill timer had time to fire and be dispatched must be able to act again
+        double period = 1.0 / (double)S->tb_rate;
+        if (S->state == M_MOD_RUNNING && ctx.looping && S->tb_dispatches_since_call >= 1 && (t0 - S->tb_last_call_at) >= 3 * period + 0.05 && S->tb_running_since <= S->tb_last_call_at)
+            fail("C18.3", "token-consuming call of " + iname(S) + " refused with EAGAIN although " + std::to_string((t0 - S->tb_last_call_at) * 1000) + "ms (>= 3 refill periods + 50ms) and " + std::to_string(S->tb_dispatches_since_call) + " complete dispatch(es) began after a refill was due since its previous call (rate " + std::to_string(S->tb_rate) + "/s, burst " + std::to_string(S->tb_burst) + ")");
+        S->tb_last_call_at = t1; S->tb_dispatches_since_call = 0;
+        return;
+    }
+    if (r != 0) { S->tb_last_call_at = t1; S->tb_dispatches_since_call = 0; return; }
+    S->tb_calls.push_back({t0, t1});
+    size_t j = S->tb_calls.size() - 1;
+    for (size_t i = 0; i <= j; i++) {
+        double window = S->tb_calls[j].second - S->tb_calls[i].first;
+        double allowed = (double)S->tb_burst + (double)S->tb_rate * window * (1.0 + 1e-6);
+        if ((double)(j - i + 1) > allowed + 1e-9 && (double)(j - i + 1) <= allowed + 1.0 + 1e-9 && !P.strict) {
+            // known finding KF-C18-1: an expiry of the refill timer that fires while the bucket is full stays readable and is
+            // credited later, so the effective burst is b + 1.  Exactly-one-over windows are excluded (counted); more is reported.
+            cls.insert("excluded_by_known_finding:KF-C18-1"); excluded_kf++;
+            continue;
+        }
+        if ((double)(j - i + 1) > allowed + 1e-9) {
+            fail("C18.1", std::to_string(j - i + 1) + " token-consuming calls of " + iname(S) + " succeeded within " + std::to_string(window * 1000) + "ms although rate " + std::to_string(S->tb_rate) + "/s and burst " + std::to_string(S->tb_burst) + " allow at most " + std::to_string(allowed));
+            return;
+        }
+    }
+    if (S->tb_refused) { nt["C18"] = true; cls.insert("tb-accepted-after-refusal"); }
+    S->tb_last_call_at = t1; S->tb_dispatches_since_call = 0;
+    (void)op;
+}
 
 void Exec::do_op3(const Op &op, bool top, Inst *S, Inst *T, bool deny) {
     (void)T; (void)top;
@@ -189,6 +222,20 @@ void Exec::do_op3(const Op &op, bool top, Inst *S, Inst *T, bool deny) {
             else RET_ILLEGAL("C09.3", "m_mod_src_deregister_tmr of a timer that is not registered", r);
         }
         break; }
+    case prog::O_SET_TB: {
+        observe_pre();
+        if (!S || !handle(S)) break;
+        if (skip_if_deny()) break;
+        long rate = op.a, burst = std::max(1L, op.b);
+        bool legal = mod_ok(this, S);
+        int r = m_mod_set_tokenbucket(handle(S), (uint32_t)rate, (uint64_t)burst);
+        if (!legal) { RET_ILLEGAL("C01.2", "m_mod_set_tokenbucket", r); break; }
+        if (r != 0) { fail("C18.4", "m_mod_set_tokenbucket(" + std::to_string(rate) + ", " + std::to_string(burst) + ") returned " + std::to_string(r) + (S->tb_on ? " while re-configuring a throttled module" : "")); break; }
+        if (S->tb_on) cls.insert("tb-reconfigured");
+        S->tb_on = rate > 0; S->tb_rate = rate; S->tb_burst = burst; S->tb_calls.clear(); S->tb_refused = 0;
+        S->tb_last_call_at = now(); S->tb_dispatches_since_call = 0; S->tb_running_since = now();
+        cls.insert(rate > 0 ? "tb-set" : "tb-cleared");
+        break; }
     default: break;
     }
 }
@@ -266,6 +313,7 @@ rt::Verdict Exec::run() {
     v.nontrivial = nt[prop];
     for (auto &s : cls) v.classes.push_back(s);
     if (counters_skipped) v.classes.push_back("ops-skipped-by-exclusion");
+    (void)excluded_kf;
     return v;
 }
 
